@@ -14,6 +14,7 @@ import (
 
 func init() {
 	register(&PropertyCheck{ID: "C09", Level: "other", Run: checkC09, Canaries: []Canary{
+		{Name: "nil-returned-under-error-test", Silent: true, Edits: []Edit{{"unsubscribe.go", "\t\tif b.err != nil {\n\t\t\tbreak\n\t\t}\n\t\tp.filters = append(p.filters, f)\n\t\tif b.i == len(data) {\n\t\t\tbreak\n\t\t}\n\t}\n\treturn b.err\n}", "\t\tif b.err != nil {\n\t\t\treturn b.err\n\t\t}\n\t\tp.filters = append(p.filters, f)\n\t\tif b.atEnd() {\n\t\t\treturn nil\n\t\t}\n\t}\n}"}}},
 		{Name: "identifier-high-bit-masked", Rule: "R9.5", Where: "(*Ident).UnmarshalBinary", Edits: []Edit{{"wiretypes.go", "\t*v = Ident(data[0])", "\t*v = Ident(data[0] & 0x7f)"}}},
 		{Name: "vbi-accepts-unterminated", Rule: "R9.3", Where: "(*vbint).UnmarshalBinary", Edits: []Edit{{"wiretypes.go", "\t\tif encodedByte&128 == 0 {\n\t\t\t*v = vbint(value)\n\t\t\treturn nil\n\t\t}\n\t\tmultiplier = multiplier * 128\n\t}\n\treturn unmarshalErr(v, \"\", \"missing data\")", "\t\tif encodedByte&128 == 0 {\n\t\t\tbreak\n\t\t}\n\t\tmultiplier = multiplier * 128\n\t}\n\t*v = vbint(value)\n\treturn nil"}}},
 		{Name: "vbi-guard-dropped-in-memory", Rule: "R9.3", Where: "(*vbint).UnmarshalBinary", Edits: []Edit{{"wiretypes.go", "\t\tif multiplier > 128*128*128 {\n\t\t\treturn unmarshalErr(v, \"\", \"size exceeded\")\n\t\t}\n", ""}}},
@@ -284,6 +285,30 @@ func checkStickyResult(p *Prog, c *Check, cur *Cursor) {
 				}
 			}
 			_ = reads
+			if !good && isNilConst(r) {
+				// `return nil` where the sticky error is known to be nil: a dominating test of the error, as it still
+				// is at the return (no write to it in between), took the nil edge
+				for _, dc := range domConds(b) {
+					bo, ok := dc.cond.(*ssa.BinOp)
+					if !ok || (bo.Op != token.EQL && bo.Op != token.NEQ) {
+						continue
+					}
+					var other ssa.Value
+					if isNilConst(bo.Y) {
+						other = bo.X
+					} else if isNilConst(bo.X) {
+						other = bo.Y
+					} else {
+						continue
+					}
+					if !isErrLoad(other) {
+						continue
+					}
+					if (bo.Op == token.EQL) == dc.truth {
+						good = true
+					}
+				}
+			}
 			if !good {
 				okAll = false
 				c.Bad("R9.2", cons, posOf(p, ret), "the packet decoder does not return the reader's sticky error (returns "+describeVal(r)+"): a rejection inside a field would be lost")
